@@ -78,6 +78,16 @@ Definition in_lm_theta (ys : list R) (tau rate mu theta : R) : R :=
 
 (* dictionary model with two continuous blocks: lp(a, b) = -(a^2)/2 - (b - a)^2/2 *)
 Definition lp_pair (a b : R) : R := - a ^ 2 / 2 - (b - a) ^ 2 / 2.
+(* block a with b fixed / block b with a fixed: score and information of the conditional *)
+Definition sc_pair_a (b a : R) : R := - a + (b - a).
+Definition in_pair_a (b a : R) : R := 2.
+Definition sc_pair_b (a b : R) : R := - (b - a).
+Definition in_pair_b (a b : R) : R := 1.
+
+(* rw.py / iwls.py: the proposal as a location-scale transform of the standard normal draw z *)
+Definition rw_proposal (s x z : R) : R := x + s * z.
+Definition iwls_proposal (s : R) (score info : R -> R) (x z : R) : R :=
+  iwls_mu s score info x + iwls_sd s info x * z.
 
 Ltac c04_unfold :=
   cbv [seq_kernels seq_kernel id_kernel mh_kernel with_diag mh_off accept_prob hastings_corr
@@ -86,7 +96,32 @@ Ltac c04_unfold :=
        gauss_logpdf rw_logq iwls_mu iwls_sd iwls_logq mh_alpha db_residual
        lp_gauss sc_gauss in_gauss lp_quartic sc_quartic in_quartic
        lp_loggamma sc_loggamma in_loggamma
-       sumsq lp_lm sc_lm_mu in_lm_mu sc_lm_theta in_lm_theta lp_pair];
+       sumsq lp_lm sc_lm_mu in_lm_mu sc_lm_theta in_lm_theta lp_pair
+       sc_pair_a in_pair_a sc_pair_b in_pair_b rw_proposal iwls_proposal];
   rewrite ?rmin_as_abs.
 
 Ltac c04_solve := c04_unfold; interval with (i_prec 64).
+
+(* acceptance probabilities far from the kink of min(1, .): decide the branch first, so that a huge
+   ratio exp l does not eat the absolute precision of the |a - b| form of Rmin *)
+Lemma accept_prob_ge l : 0 <= l -> accept_prob l = 1.
+Proof.
+  intros H. unfold accept_prob. apply Rmin_left. rewrite <- exp_0.
+  destruct H as [H|H]; [left; apply exp_increasing; exact H | rewrite H; right; reflexivity].
+Qed.
+
+Lemma accept_prob_le l : l <= 0 -> accept_prob l = exp l.
+Proof.
+  intros H. unfold accept_prob. apply Rmin_right. rewrite <- exp_0.
+  destruct H as [H|H]; [left; apply exp_increasing; exact H | rewrite H; right; reflexivity].
+Qed.
+
+Ltac c04_alpha :=
+  unfold mh_alpha;
+  match goal with
+  | |- context [accept_prob ?l] =>
+      first [ rewrite (accept_prob_ge l) by (c04_unfold; interval with (i_prec 64))
+            | rewrite (accept_prob_le l) by (c04_unfold; interval with (i_prec 64))
+            | idtac ]
+  end;
+  c04_solve.
